@@ -100,7 +100,7 @@ Proof.
       destruct (IH q2 (i + 1) f) as (H1&H2&H3&H4&H5&H6); subst q2; autorewrite with qdb; try lia;
         try exact Ht.
       autorewrite with qdb in *. repeat split; try assumption.
-      intros j Hj. rewrite H6 by lia. rewrite !getu_setu by lia. dif; fin.
+      intros j Hj. rewrite H6 by lia. dif; rewrite ?getu_setu by lia; dif; fin.
 Qed.
 
 Lemma remove_at_spec ow q i : inv ow sq q -> i < cnt q ->
@@ -120,7 +120,7 @@ Proof.
     apply abs_ext; unfold l0_remove_at; autorewrite with nthdb; [lia|].
     intros j Hj. autorewrite with nthdb in Hj. rewrite G by lia.
     replace (j + 1 <? qsize q2) with true by lia. rewrite H6 by lia.
-    rewrite !nth_abs by lia. dif; fin.
+    autorewrite with nthdb absdb. dif; fin.
   - destruct (shift_from_tail_spec (cnt q - 1 - i) q i (qsize q) Hh Hc Ht ltac:(lia) ltac:(lia) ltac:(lia))
       as (H1&H2&H3&H4&H5&H6).
     set (q2 := shift_from_tail q (intern q i) (qsize q)) in *.
@@ -132,7 +132,7 @@ Proof.
     apply (list_ext _ _ 0%Z); unfold l0_remove_at; autorewrite with nthdb; [lia|].
     intros j Hj. autorewrite with nthdb in Hj. rewrite nth_firstn'.
     replace (j <? cnt q2 - 1) with true by lia. rewrite nth_abs by lia. rewrite H6 by lia.
-    rewrite !nth_abs by lia. dif; fin.
+    autorewrite with nthdb absdb. dif; fin.
 Qed.
 
 (* ------------------------------------------------------------------ copy loops inside the window *)
@@ -186,8 +186,11 @@ Proof.
         apply (list_ext _ _ 0%Z).
         { unfold l0_insert_at. rewrite upd_length, fold_length by (intros; apply upd_length).
           autorewrite with nthdb. cbn [length]. autorewrite with nthdb. lia. }
-        intros j Hj. rewrite nth_upd, shift_down_nth by (cbn [length]; rewrite abs_length; lia).
-        unfold l0_insert_at. autorewrite with nthdb. cbn [length]. dif; fin.
+        intros j Hj. rewrite upd_length, fold_length in Hj by (intros; apply upd_length).
+        autorewrite with nthdb in Hj. cbn [length] in Hj.
+        rewrite nth_upd, shift_down_nth by (cbn [length]; rewrite abs_length; lia).
+        rewrite fold_length by (intros; apply upd_length).
+        unfold l0_insert_at. autorewrite with nthdb. cbn [length]. autorewrite with nthdb. dif; fin.
       * destruct (add_tail_spec jk sq ow q dflt I) as [J1 J2].
         set (q2 := add_tail ow jk sq q dflt) in *.
         assert (C2 : cnt q2 = cnt q + 1) by (rewrite <- (abs_length q2), J2; autorewrite with nthdb; cbn [length]; lia).
@@ -201,8 +204,11 @@ Proof.
         apply (list_ext _ _ 0%Z).
         { unfold l0_insert_at. rewrite upd_length, fold_length by (intros; apply upd_length).
           autorewrite with nthdb. cbn [length]. autorewrite with nthdb. lia. }
-        intros j Hj. rewrite nth_upd, shift_up_nth by (autorewrite with nthdb; cbn [length]; lia).
-        unfold l0_insert_at. autorewrite with nthdb. cbn [length]. dif; fin.
+        intros j Hj. rewrite upd_length, fold_length in Hj by (intros; apply upd_length).
+        autorewrite with nthdb in Hj. cbn [length] in Hj.
+        rewrite nth_upd, shift_up_nth by (autorewrite with nthdb; cbn [length]; lia).
+        rewrite fold_length by (intros; apply upd_length).
+        unfold l0_insert_at. autorewrite with nthdb. cbn [length]. autorewrite with nthdb. dif; fin.
 Qed.
 
 (* ------------------------------------------------------------------ Swap / ReverseItemOrdering *)
